@@ -10,10 +10,9 @@ from typing import List
 from twisted.persisted import dirdbm as _dirdbm
 from twisted.python import filepath as _filepath
 
-from vlib import api, fakefs, lbytes
+from vlib import api, fakefs
 from vlib.api import H, cover
-from vlib.fakefs import Crash, FakeFS, installed
-from vlib.lift import b, t
+from vlib.fakefs import Crash, FakeFS, Rope, installed
 
 PROPERTY = "C51"
 LEVEL = "model_checking"
@@ -54,14 +53,15 @@ EXPLANATION = ("real DirDBM on a fake filesystem: symbolic operation history, va
                "length and recovery crash step; the reopened database is compared with a dict model")
 
 K = [b"a", b"b"]
+SYM = api.MODE != "real"
 
 
 class _BytesMeta(type):
     def __eq__(cls, other):
-        return other is bytes or other is lbytes.LBytes
+        return other is bytes or other is Rope
 
     def __ne__(cls, other):
-        return not (other is bytes or other is lbytes.LBytes)
+        return not (other is bytes or other is Rope)
 
     def __hash__(cls):
         return 7
@@ -72,20 +72,36 @@ class _BytesLike(metaclass=_BytesMeta):
 
 
 def _extra():
-    if api.MODE == "real":
-        return {}
-    return {_dirdbm: {"bytes": _BytesLike}}
+    return {_dirdbm: {"bytes": _BytesLike}} if SYM else {}
 
 
 def selftest():
-    assert (type(b"x") == _BytesLike) and (type(lbytes.LBytes("x")) == _BytesLike)
+    assert (type(b"x") == _BytesLike) and (type(Rope()) == _BytesLike)
     assert not (type("x") == _BytesLike) and not (type(1) == _BytesLike)
-    return fakefs.selftest() + 4
+    assert _canon(Rope.payload(1, 2)) == [(1, 0, 2)] and _canon(Rope.payload(1, 0)) == [] and _canon(None) is None
+    return fakefs.selftest() + 7
+
+
+def _mk(wid, n):
+    """value number `wid` of length n: an opaque span under the solver, real bytes (a letter per value)
+    in replay"""
+    if SYM:
+        return Rope.payload(wid, n)
+    return bytes([65 + wid]) * n
+
+
+def _canon(x):
+    """comparable form of a value (None = no such key): span list / text"""
+    if x is None:
+        return None
+    if isinstance(x, Rope):
+        return x.norm()
+    return x.decode("latin-1")
 
 
 def _get(db, key):
     try:
-        return t(db[key])
+        return _canon(db[key])
     except KeyError:
         return None
 
@@ -114,35 +130,34 @@ def _check(fs, db, model, pending):
     return fs.ls("/db") == want
 
 
-def crash_history(ops: List[int], va: str, vb: str, vc: str, vi: str, vj: str, init: int, crash_at: int,
+def crash_history(ops: List[int], na: int, nb: int, nc: int, ni: int, nj: int, init: int, crash_at: int,
                   cut: int, crash2: int) -> bool:
     """
     pre: len(ops) <= B['ops'] and all(0 <= o <= 3 for o in ops)
-    pre: len(va) <= B['n'] and len(vb) <= B['n'] and len(vc) <= B['n'] and len(vi) <= B['n'] and len(vj) <= B['n']
-    pre: all(ord(c) < 256 for c in va + vb + vc + vi + vj)
-    pre: 0 <= init <= 3 and -1 <= crash_at <= B['steps'] and 0 <= cut <= B['n'] and -1 <= crash2 <= 2
+    pre: na >= 0 and nb >= 0 and nc >= 0 and ni >= 0 and nj >= 0 and cut >= 0
+    pre: 0 <= init <= 3 and -1 <= crash_at <= B['steps'] and -1 <= crash2 <= 2
     post: _
     """
-    fs = FakeFS(empty=b(""))
-    vals = [va, vb, vc]
+    fs = FakeFS(empty=Rope() if SYM else b"")
+    lens = [na, nb, nc]
     with installed(fs, _dirdbm, _filepath, extra=_extra()):
         db = _dirdbm.DirDBM("/db")
         model = [None, None]
-        if init & 1:
-            db[K[0]] = b(vi)
-            model[0] = vi
-        if init & 2:
-            db[K[1]] = b(vj)
-            model[1] = vj
+        if init == 1 or init == 3:
+            db[K[0]] = _mk(3, ni)
+            model[0] = _canon(_mk(3, ni))
+        if init >= 2:
+            db[K[1]] = _mk(4, nj)
+            model[1] = _canon(_mk(4, nj))
         fs.arm(crash_at, cut)
         pending = None
         try:
             for i in range(len(ops)):
                 op = ops[i]
-                ki = op & 1
+                ki = 1 if (op == 1 or op == 3) else 0
                 if op < 2:
-                    pending = (ki, model[ki], vals[i])
-                    db[K[ki]] = b(vals[i])
+                    pending = (ki, model[ki], _canon(_mk(i, lens[i])))
+                    db[K[ki]] = _mk(i, lens[i])
                 else:
                     pending = (ki, model[ki], None)
                     try:
@@ -193,12 +208,13 @@ HARNESSES = [
 
 VECTORS = {
     "crash_history": [
-        ([0, 1], "x", "y", "", "o", "p", 3, -1, 0, -1),
-        ([0, 0], "x", "yy", "", "o", "p", 1, 2, 1, -1),     # crash after the .rpl is complete
-        ([0], "xy", "", "", "o", "p", 1, 1, 1, 0),          # torn .rpl, crash again in recovery
-        ([0], "xy", "", "", "o", "p", 1, 3, 0, 0),          # old removed, .rpl not yet renamed; crash in recovery
-        ([1], "xy", "", "", "o", "p", 0, 1, 1, -1),         # torn .new
-        ([2, 0], "", "n", "", "o", "p", 3, 1, 0, 1),
-        ([3, 3], "", "", "", "o", "p", 2, 5, 0, -1),
+        ([0, 1], 1, 1, 0, 1, 1, 3, -1, 0, -1),
+        ([0, 0], 1, 2, 0, 1, 1, 1, 2, 1, -1),     # crash after the .rpl is complete
+        ([0], 2, 0, 0, 1, 1, 1, 1, 1, 0),         # torn .rpl, crash again in recovery
+        ([0], 2, 0, 0, 1, 1, 1, 3, 0, 0),         # old removed, .rpl not yet renamed; crash in recovery
+        ([1], 2, 0, 0, 1, 1, 0, 1, 1, -1),        # torn .new
+        ([2, 0], 0, 1, 0, 1, 1, 3, 1, 0, 1),
+        ([3, 3], 0, 0, 0, 1, 1, 2, 5, 0, -1),
+        ([0, 2], 0, 0, 0, 0, 0, 1, 4, 0, -1),     # empty values are values
     ],
 }
